@@ -142,17 +142,21 @@
 (define-fun-rec allhave_{HT} ((l {LHT}) (names L_Str)) Bool (or ((_ is nil_L_Str) names) (and (hasname_{HT} l (hd_L_Str names)) (allhave_{HT} l (tl_L_Str names)))))
 
 ; @template Layout
-; validloc(t, off, a): (off, a) is the location of a field of struct type t reached through
-; plain fields and value-embedded/nested structs only (never across a pointer): Go's layout
-; rule - offsets of nested value structs add.
-(define-fun-rec validfield ((fs L_S_reflect.StructField) (off Int) (a RType)) Bool
+; validloc(t, off, nm, a): (off, a) is the location of the field named nm of struct type t,
+; reached through plain fields and value-embedded/nested structs only (never across a
+; pointer): Go's layout rule - offsets of nested value structs add. The name is part of the
+; location: another field of the same type that happens to sit at a miscomputed offset is
+; not the field an entry of the listing denotes.
+(define-fun-rec validfield ((fs L_S_reflect.StructField) (off Int) (nm Str) (a RType)) Bool
   (and ((_ is cons_L_S_reflect.StructField) fs)
-       (or (and (= (S_reflect.StructField_Offset (hd_L_S_reflect.StructField fs)) off) (= (S_reflect.StructField_Type (hd_L_S_reflect.StructField fs)) a))
+       (or (and (= (S_reflect.StructField_Offset (hd_L_S_reflect.StructField fs)) off) (= (S_reflect.StructField_Name (hd_L_S_reflect.StructField fs)) nm) (= (S_reflect.StructField_Type (hd_L_S_reflect.StructField fs)) a))
            (and ((_ is rt_struct) (S_reflect.StructField_Type (hd_L_S_reflect.StructField fs)))
                 (<= (S_reflect.StructField_Offset (hd_L_S_reflect.StructField fs)) off)
-                (validfield (rt_fields (S_reflect.StructField_Type (hd_L_S_reflect.StructField fs))) (- off (S_reflect.StructField_Offset (hd_L_S_reflect.StructField fs))) a))
-           (validfield (tl_L_S_reflect.StructField fs) off a))))
-(define-fun validloc ((t RType) (off Int) (a RType)) Bool (and ((_ is rt_struct) t) (validfield (rt_fields t) off a)))
+                (validfield (rt_fields (S_reflect.StructField_Type (hd_L_S_reflect.StructField fs))) (- off (S_reflect.StructField_Offset (hd_L_S_reflect.StructField fs))) nm a))
+           (validfield (tl_L_S_reflect.StructField fs) off nm a))))
+(define-fun validloc ((t RType) (off Int) (nm Str) (a RType)) Bool (and ((_ is rt_struct) t) (validfield (rt_fields t) off nm a)))
+; memory safety of a typed access: some field of exactly that type is located there
+(define-fun validlocany ((t RType) (off Int) (a RType)) Bool (exists ((nm Str)) (validloc t off nm a)))
 
 ; @template FieldAccess
 ; a value of struct type {S} seen as a record of its fields: fget/fput at a location
